@@ -134,6 +134,52 @@ def _prep_file(task):
     return res
 
 
+def _ref_task(task):
+    name, op = task
+    fi = _file_info(name)
+    full, ticks = reference(fi, op, full=True)
+    return [cdigest(o) for o in full], ticks, bool(full and full[-1] in (('SOLO-BUDGET',), ('TOO-MANY-STEPS',)))
+
+
+def _prep_file_slow(task):
+    """Second chance for a file whose preparation child was killed by the watchdog: every solo
+    reference in its own fork with its own wall-clock limit, so that the op whose solo execution
+    does not terminate is pinned down (and reported) instead of silently losing the file."""
+    name, tier, seed, focus, _ = task
+    fi = _file_info(name)
+    res = dict(name=name, ok=False, pool=[], refs={}, ticks={}, cross=[], positions={}, kinds=[], skipped=None)
+    st, cat = forkpool.isolated(lambda _: catalog.build(fi['data'], fi['follow'], fi['peers'], max_dies=3000), None, timeout=30)
+    if st != 'ok':
+        res['skipped'] = 'catalogue: %s' % st
+        if st == 'timeout':
+            res['cross'].append(dict(key=runner.HANG_KEY, op=['sec_iter', None, None], check='sequential catalogue pass does not terminate',
+                                     expected='terminates', observed='killed', hang=True))
+        return res
+    r = substream(h64(seed, 'pool', name, focus or ''), 'pool')
+    gen = poolmod.Gen(cat, r)
+    ops = gen.pool(110 if tier == 'quick' else 320, focus)
+    res['kinds'] = gen.kinds
+    hangs = 0
+    for op in ops:
+        if hangs >= 2:
+            break
+        st, out = forkpool.isolated(_ref_task, (name, op), timeout=15)
+        if st == 'timeout':
+            hangs += 1
+            res['cross'].append(dict(key=runner.HANG_KEY, op=op, check='solo execution does not terminate', expected='terminates',
+                                     observed='killed after 15 s', hang=True))
+            continue
+        if st != 'ok' or out[2]:
+            continue
+        key = json.dumps(op)
+        res['pool'].append(op)
+        res['refs'][key] = out[0]
+        res['ticks'][key] = out[1]
+    res['positions'] = {}
+    res['ok'] = True
+    return res
+
+
 def _kind(op):
     if op[0] in ('x2', 'dwarf_again'):
         return _kind(op[1])
@@ -182,11 +228,34 @@ def prepare(prop, tier, seed, only=None):
     _ST['skipped_files'] = {}
     for n in names:
         _file_info(n)
-    for ti, (st, res) in forkpool.pmap(_prep_file, tasks, timeout=600):
-        n = names[ti]
-        if st != 'ok':
-            _ST['skipped_files'][n] = 'prepare %s: %s' % (st, str(res)[-300:])
+    results = {}
+    slow = []
+    # if preparation children keep being killed by the watchdog the tree has a systematic hang: a few pinned-down
+    # instances are enough, the rest of the files are not started
+    for ti, (st, res) in forkpool.pmap(_prep_file, tasks, timeout=60 if tier == 'quick' else 600, abort=lambda: len(slow) >= 6):
+        if st == 'ok':
+            results[names[ti]] = res
+        elif st == 'timeout':
+            slow.append(tasks[ti])
+        elif st == 'skipped':
+            _ST['skipped_files'][names[ti]] = 'not prepared: too many preparation children were killed by the watchdog'
+        else:
+            _ST['skipped_files'][names[ti]] = 'prepare %s: %s' % (st, str(res)[-300:])
+    if slow:
+        slow = slow[:6]
+        for ti, (st, res) in forkpool.pmap(_prep_file_slow, slow, timeout=900):
+            if st == 'ok':
+                results[slow[ti][0]] = res
+            else:
+                _ST['skipped_files'][slow[ti][0]] = 'prepare (slow path) %s' % st
+    for n in names:
+        res = results.get(n)
+        if res is None:
             continue
+        for c in res['cross']:
+            if c.get('hang'):
+                c['file'] = n
+                _ST['prep_cross'].append(c)
         if not res['ok']:
             _ST['skipped_files'][n] = res['skipped']
             continue
@@ -197,14 +266,17 @@ def prepare(prop, tier, seed, only=None):
         fi.update(pool=res['pool'], refs=res['refs'], ticks=res['ticks'], positions=res['positions'], kinds=res['kinds'])
         _ST['prep'][n] = True
         for c in res['cross']:
-            c['file'] = n
-            _ST['prep_cross'].append(c)
+            if not c.get('hang'):
+                c['file'] = n
+                _ST['prep_cross'].append(c)
     _ST['names'] = sorted(_ST['prep'])
     # completion order of the preparation children must not leak into the run index space
     _ST['prep_cross'].sort(key=lambda c: (c['file'], c['key'], json.dumps(c['op'])))
     _ST['tier'] = tier
     npairs = 0
     _ST['n_random'] = (9000 if prop == 'C10' else 5000) if tier == 'quick' else (150000 if prop == 'C10' else 60000)
+    if not _ST['names']:
+        _ST['n_random'] = 0
 
 
 def n_runs(prop, tier):
@@ -609,6 +681,10 @@ def minimise(spec, key, still_fails, deadline):
     return spec
 
 
+def spec_for(prop, tier, seed, index):
+    return gen_spec(prop, tier, seed, index)
+
+
 def describe(prop):
     scope = ('op mix restricted to unit / address-range / name-table lookups' if prop == 'C13'
              else 'whole public read-only alphabet (ELF and DWARF level)')
@@ -656,4 +732,4 @@ def extra_coverage(prop, tier, agg):
 
 def main(prop, tier, seed, budget):
     return runner.explore(__import__('dst.engines.histsim', fromlist=['x']), prop, tier, seed,
-                          batch=48, isolate=90, budget_s=budget or (150 if tier == 'quick' else 1500), max_keys=10)
+                          batch=48, isolate=45, budget_s=budget or (150 if tier == 'quick' else 1500), max_keys=10)
